@@ -45,6 +45,9 @@ type fetch struct {
 	// envelope is env (cand == false: a plain root fetch)
 	cand    bool
 	ds, env int
+	// path attributes (kind paths / pathodd only): FetchItem.ResponsePathElements (ResponsePath is their
+	// Join with ".") and PostProcessing.MergePath
+	rp, mp []string
 }
 
 // ---------------------------------------------------------------- implementation side
@@ -52,7 +55,7 @@ type fetch struct {
 // entity builds a fetch that createMultiFetch.isCandidate accepts (cf. create_multi_fetch_test.go):
 // entity / batch entity SingleFetch, SubgraphOperation with an _entities document, exactly one
 // representations fragment pointing at a ResolvableObjectVariable, FetchInfo with the datasource.
-func entity(f fetch, deps []int) *resolve.FetchItem {
+func entity(f fetch, deps []int, paths bool) *resolve.FetchItem {
 	src := fmt.Sprintf(`query($representations: [_Any!]!){_entities(representations: $representations){... on User {__typename f%d}}}`, f.id)
 	doc, report := astparser.ParseGraphqlDocumentString(src)
 	if report.HasErrors() {
@@ -79,10 +82,15 @@ func entity(f fetch, deps []int) *resolve.FetchItem {
 			},
 		},
 	}
+	if paths {
+		return pathItem(sf, f)
+	}
 	return resolve.FetchItemWithPath(sf, "user", resolve.ObjectPath("user"))
 }
 
-func items(dag []fetch) []*resolve.FetchItem {
+func items(dag []fetch) []*resolve.FetchItem { return itemsOf(dag, false) }
+
+func itemsOf(dag []fetch, paths bool) []*resolve.FetchItem {
 	out := make([]*resolve.FetchItem, len(dag))
 	for i, f := range dag {
 		var deps []int
@@ -90,16 +98,21 @@ func items(dag []fetch) []*resolve.FetchItem {
 			deps = append([]int{}, f.deps...)
 		}
 		if f.cand {
-			out[i] = entity(f, deps)
+			out[i] = entity(f, deps, paths)
 			continue
 		}
-		out[i] = &resolve.FetchItem{
-			Fetch: &resolve.SingleFetch{
-				FetchDependencies: resolve.FetchDependencies{FetchID: f.id, DependsOnFetchIDs: deps},
-				Info: &resolve.FetchInfo{DataSourceID: fmt.Sprintf("root%d", f.id), DataSourceName: fmt.Sprintf("root%d", f.id),
-					OperationType: ast.OperationTypeQuery},
-			},
+		sf := &resolve.SingleFetch{
+			FetchDependencies: resolve.FetchDependencies{FetchID: f.id, DependsOnFetchIDs: deps},
+			Info: &resolve.FetchInfo{DataSourceID: fmt.Sprintf("root%d", f.id), DataSourceName: fmt.Sprintf("root%d", f.id),
+				OperationType: ast.OperationTypeQuery},
 		}
+		if paths {
+			// pairwise different inputs: deduplicateSingleFetches (which runs in the real pipeline) finds nothing
+			sf.Input = fmt.Sprintf(`{"fetch":%d}`, f.id)
+			out[i] = pathItem(sf, f)
+			continue
+		}
+		out[i] = &resolve.FetchItem{Fetch: sf}
 	}
 	return out
 }
@@ -451,6 +464,16 @@ func parseCorpusLine(line string) (string, []fetch, error) {
 	}
 	var dag []fetch
 	for _, tok := range strings.Fields(parts[1]) {
+		// path attributes: ~RESPONSEPATH[~MERGEPATH], segments joined with "/" (kind paths / pathodd)
+		var rp, mp []string
+		if t := strings.IndexByte(tok, '~'); t >= 0 {
+			pm := strings.SplitN(tok[t+1:], "~", 2)
+			rp = decSegs(pm[0])
+			if len(pm) == 2 {
+				mp = decSegs(pm[1])
+			}
+			tok = tok[:t]
+		}
 		src := ""
 		if at := strings.IndexByte(tok, '@'); at >= 0 {
 			src, tok = tok[at+1:], tok[:at]
@@ -460,7 +483,7 @@ func parseCorpusLine(line string) (string, []fetch, error) {
 		if err != nil || len(kv) != 2 {
 			return "", nil, fmt.Errorf("bad fetch %q", tok)
 		}
-		f := fetch{id: id}
+		f := fetch{id: id, rp: rp, mp: mp}
 		if src != "" {
 			de := strings.SplitN(src, ".", 2)
 			f.cand = true
@@ -485,7 +508,7 @@ func parseCorpusLine(line string) (string, []fetch, error) {
 
 func main() {
 	if len(os.Args) < 2 {
-		fmt.Fprintln(os.Stderr, "usage: c08 gen -seed S -n N -out F | c08 corpus -in F -out F")
+		fmt.Fprintln(os.Stderr, "usage: c08 gen -seed S -n N -out F | c08 genp -seed S -n N -out F | c08 corpus -in F -out F")
 		os.Exit(2)
 	}
 	a := common.Args(os.Args[2:])
@@ -500,6 +523,16 @@ func main() {
 				out.Line(observe("dup", genDup(r)))
 			} else {
 				out.Line(observe("dag", genDAG(r)))
+			}
+		}
+	case "genp":
+		r := common.NewRand(common.ArgU64(a, "seed", 1) ^ 0x70617468)
+		n := common.ArgInt(a, "n", 1000)
+		for i := 0; i < n; i++ {
+			if r.Chance(1, 10) {
+				out.Line(observePaths("pathodd", genPaths(r, true)))
+			} else {
+				out.Line(observePaths("paths", genPaths(r, false)))
 			}
 		}
 	case "corpus":
@@ -518,6 +551,14 @@ func main() {
 			if err != nil {
 				fmt.Fprintln(os.Stderr, err, ":", line)
 				os.Exit(2)
+			}
+			if kind == "paths" || kind == "pathodd" {
+				if !terminates(completedForFilter(dag)) {
+					fmt.Fprintln(os.Stderr, "corpus case would overflow the Go stack (cyclic after completion):", line)
+					os.Exit(2)
+				}
+				out.Line(observePaths(kind, dag))
+				continue
 			}
 			if !terminates(dag) {
 				fmt.Fprintln(os.Stderr, "corpus case would overflow the Go stack (cyclic):", line)
